@@ -4,4 +4,4 @@ import supcheck
 
 
 def run(ctx):
-    supcheck.run(ctx, "C08", kinds="api", n_quick=160, n_thorough=2000)
+    supcheck.run(ctx, "C08", kinds="api,stopstart", n_quick=180, n_thorough=2000)
